@@ -57,6 +57,8 @@ instance : Sc Float where
   leb a b := a ≤ b
   eqb a b := a == b
   toU32 x := x.toUInt32.toNat
-  ofInt i := Float.ofInt i
+  -- `Float.ofInt` goes through `Float.ofScientific` (a bignum parse per call); for |i| ≤ 10^9 (small-integer representation: cheap test) the
+  -- 64-bit conversion gives the same (exact) value and is what the hot loops need
+  ofInt i := if -1000000000 ≤ i ∧ i ≤ 1000000000 then i.toInt64.toFloat else Float.ofInt i
 
 end IPT
